@@ -207,7 +207,13 @@ pub fn gen_c03(rng: &mut Rng, d: &mut Dist, _idx: u64) -> Vec<String> {
         bump(d, &format!("codec-{}", c));
         out.push(format!("OP c set compression {}", c));
         let acks = *rng.pick(&[1i64, 1, -1, 0]);
-        let nrec = 1 + rng.below(10);
+        // mostly small batches; now and then a long one interleaving a few partitions (order inside a partition must
+        // survive whatever grouping the client does)
+        let long = rng.chance(1, 6);
+        if long {
+            bump(d, "batch-long-interleaved");
+        }
+        let nrec = if long { 21 + rng.below(80) } else { 1 + rng.below(10) };
         let mut line = format!("OP c produce {} 1 0", acks);
         // now and then a partition's set grows past the compressors' internal buffers with data that does not compress
         let big = rng.chance(1, 8);
@@ -1252,10 +1258,17 @@ pub fn gen_c07(rng: &mut Rng, d: &mut Dist, _idx: u64) -> Vec<String> {
             };
             let names = ["none", "e-1", "e", "e+1", "mid", "l-1", "l", "l+1", "zero"];
             bump(d, &format!("committed-{}", names[choice as usize]));
+            // the group's offsets live in the store the consumer is configured for; the other store holds nothing, or
+            // something else
+            let other = if storage == "zk" { "kafka" } else { "zk" };
             if let Some(c) = c {
                 if c != -1 {
-                    out.push(format!("COMMITTED {} {} {} {}", h("grp"), h(&t.name), p, c));
+                    out.push(format!("COMMITTEDIN {} {} {} {} {}", storage, h("grp"), h(&t.name), p, c));
                 }
+            }
+            if rng.chance(1, 2) {
+                bump(d, "other-store-holds-a-different-offset");
+                out.push(format!("COMMITTEDIN {} {} {} {} {}", other, h("grp"), h(&t.name), p, e + rng.below((l - e + 1) as u64) as i64));
             }
         }
     }
@@ -1272,8 +1285,32 @@ pub fn gen_c07(rng: &mut Rng, d: &mut Dist, _idx: u64) -> Vec<String> {
         opts.push(format!("group={}", h("grp")));
         opts.push(format!("storage={}", storage));
     }
+    // a third of the consumers are built from a client that was configured beforehand: with the same storage (inherited or
+    // named again) or with the other one (the builder's word counts)
+    let mut from = format!("hosts={}", cl.bootstrap());
+    if rng.chance(1, 3) {
+        bump(d, "from-client");
+        out.push(format!("OP client_new {}", cl.bootstrap()));
+        let other = if storage == "zk" { "kafka" } else { "zk" };
+        match rng.below(3) {
+            0 => {}
+            1 => {
+                out.push(format!("OP c set storage {}", storage));
+                if group && rng.chance(1, 2) {
+                    opts.retain(|o| !o.starts_with("storage="));
+                    bump(d, "from-client-storage-inherited");
+                }
+            }
+            _ => {
+                bump(d, "from-client-with-the-other-storage");
+                out.push(format!("OP c set storage {}", other));
+            }
+        }
+        out.push("OP c load_metadata_all".into());
+        from = "client".to_string();
+    }
     rng.shuffle(&mut opts);
-    out.push(format!("OP consumer_create hosts={} {}", cl.bootstrap(), opts.join(" ")));
+    out.push(format!("OP consumer_create {} {}", from, opts.join(" ")));
     out.push("OP poll".into());
     out
 }
@@ -1434,7 +1471,11 @@ pub fn gen_c05(rng: &mut Rng, d: &mut Dist, _idx: u64) -> Vec<String> {
         bump(d, &format!("codec-{}", comp));
         let acks = *rng.pick(&[0i64, 1, 1, -1]);
         bump(d, &format!("acks-{}", acks));
-        let n = 1 + rng.below(12);
+        let long = rng.chance(1, 6);
+        if long {
+            bump(d, "batch-long-interleaved");
+        }
+        let n = if long { 21 + rng.below(80) } else { 1 + rng.below(12) };
         let mut line = format!("OP c produce {} {} 0", acks, 1 + rng.below(30));
         let mut unknown = false;
         for _ in 0..n {
